@@ -23,6 +23,7 @@ GList *nice_interfaces_get_local_ips (gboolean include_loopback)
   return l;
 }
 #include "agent/conncheck.h"
+#include "agent/agent-priv.h"
 
 static void plist_free (GSList **l) { g_slist_free_full (*l, g_free); *l = NULL; }
 
@@ -59,6 +60,42 @@ int main (void)
       printf ("%u\n", pr);
       ci->turn = NULL;
       nice_candidate_free (c);
+    }
+    else if (!strcmp (w[0], "copy") && n >= 3) {
+      /* real scatter/gather helpers of agent.c on exactly-sized heap blocks */
+      if (!strcmp (w[1], "compact") && n == 4) {
+        GInputVector v[32]; int nv = 0, k; char *tok, *save = NULL; gsize out_len = 0; guint8 *out;
+        NiceInputMessage m; size_t want = strtoul (w[3], NULL, 10);
+        for (tok = strtok_r (w[2], ",", &save); tok && nv < 32; tok = strtok_r (NULL, ",", &save)) {
+          uint8_t *b; long l = parse_hex (tok, &b); if (l < 0) break;
+          v[nv].buffer = b; v[nv].size = l; nv++;
+        }
+        memset (&m, 0, sizeof m); m.buffers = v; m.n_buffers = nv; m.length = want;
+        out = compact_input_message (&m, &out_len);
+        { size_t tot = 0; for (k = 0; k < nv; k++) tot += v[k].size; print_hex (out, out_len < tot ? out_len : tot); puts (""); }
+        g_free (out);
+        for (k = 0; k < nv; k++) free (v[k].buffer);
+      } else if (!strcmp (w[1], "scatter") && n == 4) {
+        GInputVector v[32]; int nv = 0, k; char *tok, *save = NULL; NiceInputMessage m; uint8_t *d; long dl; gssize r;
+        for (tok = strtok_r (w[2], ",", &save); tok && nv < 32; tok = strtok_r (NULL, ",", &save)) {
+          v[nv].size = strtoul (tok, NULL, 10); v[nv].buffer = malloc (v[nv].size ? v[nv].size : 1);
+          if (!v[nv].size) { free (v[nv].buffer); v[nv].buffer = malloc (0); }
+          nv++;
+        }
+        dl = parse_hex (w[3], &d);
+        memset (&m, 0, sizeof m); m.buffers = v; m.n_buffers = nv;
+        r = memcpy_buffer_to_input_message (&m, d, dl);
+        printf ("len %zd bufs ", r);
+        { size_t left = r; int first = 1;
+          for (k = 0; k < nv && left > 0; k++) {
+            size_t take = v[k].size < left ? v[k].size : left;
+            if (take == 0) continue;          /* canonical form: non-empty pieces only */
+            if (!first) putchar (','); first = 0;
+            print_hex (v[k].buffer, take); left -= take;
+          } }
+        puts ("");
+        free (d); for (k = 0; k < nv; k++) free (v[k].buffer);
+      } else puts ("bad-op");
     }
     else if (!strcmp (w[0], "plist") && n >= 2) {
       GSList *i;
